@@ -139,6 +139,7 @@ func (q *Queue) Add(elem *queue.Elem) (err error) {
 	var dropErr error
 	var dropBytes []byte
 	var dropElem *queue.Elem
+	var dropIndex int
 	var drop bool
 	defer func() {
 		conn.Close()
@@ -150,7 +151,10 @@ func (q *Queue) Add(elem *queue.Elem) (err error) {
 		if drop {
 			if dropErr == queue.ErrDropExpiredInflight {
 				q.notifier.NotifyInflightAdded(-1)
-				q.current--
+				// only the inflight messages that have been read move the read position
+				if dropIndex < q.current {
+					q.current--
+				}
 			}
 			if dropBytes == nil {
 				q.notifier.NotifyDropped(elem, dropErr)
@@ -186,15 +190,19 @@ func (q *Queue) Add(elem *queue.Elem) (err error) {
 				return
 			}
 			// inflight message
-			if i < q.current && queue.ElemExpiry(now, e) {
+			// Inflight elements carry a packet id and always precede the non-inflight ones,
+			// whether or not they have been replayed since the last Init.
+			inflight := e.ID() != 0
+			if inflight && queue.ElemExpiry(now, e) {
 				dropBytes = b
 				dropElem = e
+				dropIndex = i
 				dropErr = queue.ErrDropExpiredInflight
 				return
 			}
 			// non-inflight message
-			if i >= q.current {
-				if i == q.current {
+			if !inflight {
+				if frontElem == nil {
 					frontBytes = b
 					frontElem = e
 				}
@@ -214,12 +222,8 @@ func (q *Queue) Add(elem *queue.Elem) (err error) {
 			}
 		}
 		// drop the current elem if there is no more non-inflight messages.
-		if q.inflightDrained && q.current >= q.len {
+		if frontElem == nil {
 			return
-		}
-		rs, err = redigo.Values(conn.Do("lrange", getKey(q.clientID), q.current, q.len))
-		if err != nil {
-			return err
 		}
 		if dropElem != nil {
 			return
